@@ -71,6 +71,10 @@ KeyTable::KeyTable(
     const KeyDeclarationVectorType::size_type   nDeclarations =
             keyDeclarations.size();
 
+    // The use expression of a key is evaluated with the node as current
+    // node and a current node list containing just that node...
+    MutableNodeRefList  theContextNodeList(executionContext.getMemoryManager());
+
     // Do a non-recursive pre-walk over the tree.
     while (0 != pos)
     {
@@ -127,6 +131,7 @@ KeyTable::KeyTable(
                         kd,
                         testNode,
                         resolver,
+                        theContextNodeList,
                         executionContext);
                 }
             }
@@ -282,21 +287,23 @@ addIfNotFound(
 }
 
 
-static const NodeRefList    theEmptyList(XalanMemMgrs::getDummyMemMgr());
-
 void
 KeyTable::processKeyDeclaration(
             KeysMapType&                    theKeys,
             const KeyDeclaration&           kd,
             XalanNode*                      testNode,
             const PrefixResolver&           resolver,
+            MutableNodeRefList&             contextNodeList,
             StylesheetExecutionContext&     executionContext)
 {
     // Query from the node, according the the select pattern in the
     // use attribute in xsl:key.
     assert(kd.getUse() != 0);
 
-    const XObjectPtr    xuse(kd.getUse()->execute(testNode, resolver, theEmptyList, executionContext));
+    contextNodeList.clear();
+    contextNodeList.addNode(testNode);
+
+    const XObjectPtr    xuse(kd.getUse()->execute(testNode, resolver, contextNodeList, executionContext));
 
     if(xuse->getType() != XObject::eTypeNodeSet)
     {
